@@ -130,6 +130,13 @@ class Shapecheck:
                 outs = I.call_fn(fn, args, st, fr0, {"sp": fn["sp"], "k": "entry"})
             finally:
                 signal.alarm(0)
+            # drop outcomes whose path is infeasible once empty-array consequences are drawn
+            kept = []
+            for (s_, v_, c_) in outs:
+                I.saturate_bounds(s_)
+                if not s_.infeasible():
+                    kept.append((s_, v_, c_))
+            outs = kept
             res = {"fn": fn, "key": key, "outs": outs, "args": args, "muts": muts, "st0": st, "fr0": fr0,
                    "pre_muts": pre_muts, "n_facts0": n_facts0, "n_teq0": n_teq0}
             # INV of every value leaving the function
